@@ -199,6 +199,22 @@ func checkString(s string) evid.Outcome {
 	if sb.String() != canon {
 		return fail(out, "segments", "segment renderings of %q concatenate to %q, want %q", s, sb.String(), canon)
 	}
+	// the canonical form is the route's, whoever looked at the route first: a
+	// route handed to a routing tree (which has routes already) before anybody
+	// rendered it renders like any other
+	if fresh, err := parser.Parse(s); err == nil && fresh != nil {
+		if sib, serr := parser.Parse("/zz-sibling/?{zz}"); serr == nil {
+			tree := route.NewTree()
+			_, _ = route.AddRoute(tree, sib, nil)
+			func() {
+				defer func() { _ = recover() }() // (whether the tree takes the route is C08's business)
+				_, _ = route.AddRoute(tree, fresh, nil)
+			}()
+			if got := fresh.String(); got != canon {
+				return fail(out, "canonical", "Parse(%q), added to a routing tree and rendered only then: String() = %q, want %q", s, got, canon)
+			}
+		}
+	}
 	return out
 }
 
